@@ -124,12 +124,54 @@ def jobs_for(tier):
     return jobs
 
 
+LAYOUTS = [dict(params=[(2, 3)], mpd=2, merge=False), dict(params=[(3,), (2, 2)], mpd=4, merge=True), dict(params=[(2, 1, 2)], mpd=2, merge=True),
+           dict(params=[(2, 2, 2)], mpd=2, merge=False), dict(params=[(4,), ()], mpd=3, merge=True), dict(params=[(3, 2)], mpd=1, merge=False),
+           dict(params=[(2, 2), (2,)], mpd=2, merge=False), dict(params=[(1, 3), (2, 2)], mpd=3, merge=True)]
+
+
+def random_cfgs(seed, n, precond=("shampoo",), tier="quick", **extra):
+    """Seeded sample of the product of categorical options x layouts x schedules (generic equality regime): different corners on
+    different VERIF_SEEDs, every sampled configuration still solver-quantified over values and hyperparameters."""
+    import random
+
+    rng = random.Random(1000003 * seed + 17)
+    out = []
+    for _ in range(n):
+        lay = dict(rng.choice(LAYOUTS))
+        pf = rng.choice([1, 2, 3])
+        sps = rng.choice([pf, pf + 1, 2 * pf])
+        T = rng.choice([2, 3]) if sps <= 3 else 3
+        T = max(T, min(sps, 4))
+        cfg = dict(lay)
+        cfg.update(graft=rng.choice([None, "sgd", "adagrad", "rmsprop", "adam"]), nesterov=rng.random() < 0.5, bias_corr=rng.random() < 0.5, decoupled=rng.random() < 0.5,
+                   pf=pf, sps=sps, T=T, rebase=True, assume_generic=True, precond=rng.choice(list(precond)))
+        if rng.random() < 0.3:
+            cfg["presence"] = "symbolic" if len(cfg["params"]) > 1 else None
+        if rng.random() < 0.25 and cfg["precond"] == "shampoo":
+            cfg["inv_root_override"] = rng.choice([1, 2, 3, [2, 1, 3]])
+        elif rng.random() < 0.2:
+            maxo = max(len(s) for s in cfg["params"])
+            cfg["ignored_dims"] = [rng.randrange(max(maxo, 1))]
+        if rng.random() < 0.2 and cfg["precond"] == "shampoo":
+            cfg["exponent_multiplier"] = rng.choice([0.5, 2.0])
+        if rng.random() < 0.3:
+            cfg["pdtype"], cfg["fdtype"] = rng.choice([("float64", "float32"), ("bfloat16", "float32"), ("float32", "float64"), ("float64", "float64")])
+        if rng.random() < 0.4:
+            cfg["fixed"] = rng.choice([dict(mom=0), dict(wd=0), dict(b1=0), dict(mom=0, wd=0)])
+            cfg["assume_generic"] = True
+        cfg.update(extra)
+        out.append(base_cfg(tier=tier, **cfg))
+    return out
+
+
 def run(tier, seed, argv):
     from vlib import par
     from vlib.report import Report
 
     rep = Report("C01", tier, seed)
     jobs = jobs_for(tier)
+    # seeded sample of the option product (graft x nesterov x bias correction x decoupled x layout x schedule x dtype pair x overrides x presence)
+    jobs += [dict(id=f"r{i}", module="checks.c01", factory="make", cfg=c) for i, c in enumerate(random_cfgs(seed, 8 if tier == "quick" else 60, tier=tier))]
     if argv:
         jobs = [j for j in jobs if j["id"] in argv]
     rep.bounds = dict(configs=len(jobs), steps="T<=2 plain, T<=4 re-based", shapes="<=8 elements per parameter, blocks of side<=2..4",
